@@ -378,14 +378,7 @@ func c11Ids(c *c11Ctx) (all, genuine []string) {
 	return
 }
 
-func c11TicketNames(w *c11World) []string {
-	names := make([]string, 0, len(w.tickets))
-	for n := range w.tickets {
-		names = append(names, n)
-	}
-	sort.Strings(names)
-	return names
-}
+func c11TicketNames(w *c11World) []string { return c11TicketNamesOf(w, false) }
 
 // adaptive random driver
 func c11RunRandom(t *testing.T, out *c11Writer, run int, rng *rand.Rand, conc bool) {
@@ -504,6 +497,23 @@ func c11RunRandom(t *testing.T, out *c11Writer, run int, rng *rand.Rand, conc bo
 				if !ok || e["res"] != "ok" {
 					ids = nil
 				}
+			}
+			if len(ids) > 0 && rng.Intn(3) == 0 {
+				// the consensus goroutine stopped inside markEvidenceAsCommitted while peers gossip
+				// (possibly the very evidence being committed) and the proposer asks for evidence
+				w.exec(out, run, c11Op{Op: "UpdateBegin", IDs: ids, K: int64(1 + rng.Intn(len(ids)))})
+				for n := 1 + rng.Intn(3); n > 0; n-- {
+					switch rng.Intn(4) {
+					case 0:
+						w.exec(out, run, c11Op{Op: "Pending", Real: true, Bytes: -1})
+					case 1:
+						w.exec(out, run, c11Op{Op: "Add", ID: pick()})
+					default:
+						w.exec(out, run, c11Op{Op: "Add", ID: ids[rng.Intn(len(ids))]})
+					}
+				}
+				w.exec(out, run, c11Op{Op: "UpdateEnd"})
+				continue
 			}
 			crash := rng.Intn(7) == 0 && len(w.tickets) == 0
 			w.exec(out, run, c11Op{Op: "Update", IDs: ids, Crash: crash})
